@@ -134,7 +134,7 @@ def import_geogram_ascii(path):
             # cell sizrs are provided : the mesh is not tetrahedral
             for i in range(container_sizes[Chunk.Container.CELLS]-1):
                 n_corner_in_cell.append(chk.data[i+1] - chk.data[i])
-            n_corner_in_facet.append(container_sizes[Chunk.Container.CELL_CORNERS] - chk.data[-1])
+            n_corner_in_cell.append(container_sizes[Chunk.Container.CELL_CORNERS] - chk.data[-1])
             cell_ptr = chk.data
 
     if len(n_corner_in_facet)==0 and container_sizes[Chunk.Container.FACES]>0:
@@ -202,6 +202,9 @@ def import_geogram_ascii(path):
             adj_cell._expand(container_sizes[Chunk.Container.CELL_FACETS])
             import_attribute(chk, adj_cell)
 
+        elif chk.name in ("\"GEO::Mesh::facets::facet_ptr\"", "\"GEO::Mesh::cells::cell_ptr\""):
+            continue # already treated
+
         else: # user defined attribute
             container = {
                 Chunk.Container.VERTICES : outmesh.vertices,
@@ -265,6 +268,13 @@ def export_geogram_ascii(mesh : RawMeshData, path):
         if hasattr(mesh, "faces") and not mesh.faces.empty():
             n_face = len(mesh.faces)
             f.write(f"[ATTS]\n\"GEO::Mesh::facets\"\n{n_face}\n")
+            if any((len(face)!=3 for face in mesh.faces)):
+                # facets are not all triangles : index of the first corner of each facet
+                f.write("[ATTR]\n\"GEO::Mesh::facets\"\n\"GEO::Mesh::facets::facet_ptr\"\n\"index_t\"\n4\n1\n")
+                ptr = 0
+                for face in mesh.faces:
+                    f.write(f"{ptr}\n")
+                    ptr += len(face)
             for attr_key in mesh.faces.attributes:
                 attr = mesh.faces.get_attribute(attr_key)
                 export_attribute(f, n_face, "GEO::Mesh::facets", attr, attr_key)
@@ -291,6 +301,13 @@ def export_geogram_ascii(mesh : RawMeshData, path):
         if hasattr(mesh, "cells") and not mesh.cells.empty():
             n_cells = len(mesh.cells)
             f.write("[ATTS]\n\"GEO::Mesh::cells\"\n{}\n".format(n_cells))
+            if any((len(cell)!=4 for cell in mesh.cells)):
+                # cells are not all tetrahedra : index of the first corner of each cell
+                f.write("[ATTR]\n\"GEO::Mesh::cells\"\n\"GEO::Mesh::cells::cell_ptr\"\n\"index_t\"\n4\n1\n")
+                ptr = 0
+                for cell in mesh.cells:
+                    f.write(f"{ptr}\n")
+                    ptr += len(cell)
             for attr_key in mesh.cells.attributes:
                 attr = mesh.cells.get_attribute(attr_key)
                 export_attribute(f, n_cells, "GEO::Mesh::cells", attr, attr_key)
